@@ -437,8 +437,8 @@ func (s *Scenario) buildWorld(W string, src []byte, image []byte) (*worldPaths, 
 	os.Chmod(filepath.Join(W, "in"), 0777)
 	os.Chmod(filepath.Join(W, "out"), 0777)
 	r := NewRNG(s.Seed ^ 0xabcdef)
-	srcName := pick(r, []string{"prog.nas", "ipl.nas", "a.nas", "haribote.asm"})
-	dstName := pick(r, []string{"o.bin", "out.obj", "ipl.bin", "naskfunc.obj", "x"})
+	srcName := pick(r, []string{"prog.nas", "ipl.nas", "a.nas", "haribote.asm", "prog.nas", "ipl.nas", `day1\ipl.nas`, "a:b.nas", "50%.nas", "*.nas"})
+	dstName := pick(r, []string{"o.bin", "out.obj", "ipl.bin", "naskfunc.obj", "x", "o.bin", "out.obj", `bin\ipl.bin`, "a:b.img", "50%.bin", "o'q\".bin", "*.bin"})
 	srcAbs := filepath.Join(W, "in", srcName)
 	// --- source ---
 	switch s.SrcKind {
@@ -490,7 +490,8 @@ func (s *Scenario) buildWorld(W string, src []byte, image []byte) (*worldPaths, 
 		srcAbs = filepath.Join(W, "sdeep", srcName)
 		must(os.WriteFile(srcAbs, src, 0644))
 	case "barename": // a bare file name in the current directory, with an unusual first character
-		srcName = pick(r, []string{"01_hello.nas", "3d.nas", "2", "+x.nas", "=a.nas", "@file.nas", "~tilde.nas", ".hidden.nas", "a b.nas", "名前.nas", "1"})
+		srcName = pick(r, []string{"01_hello.nas", "3d.nas", "2", "+x.nas", "=a.nas", "@file.nas", "~tilde.nas", ".hidden.nas", "a b.nas", "名前.nas", "1",
+			`in\boot.nas`, `src\x.nas`, "c:x.nas", "$x.nas", "x;y.nas", "%s.nas", "*.nas", "x?.nas", "[x].nas", "x'y\".nas", "x.NAS", "x.nas.", "x.nas "})
 		if strings.HasSuffix(s.ArgPrefix, "--") && s.Seed%2 == 0 {
 			srcName = pick(r, []string{"-boot.nas", "-d", "--x.nas", "-"}) // after "--" a name may begin with a dash
 		}
@@ -597,7 +598,7 @@ func (s *Scenario) buildWorld(W string, src []byte, image []byte) (*worldPaths, 
 	case "dev_full":
 		dstAbs, dstArg = "/dev/full", "/dev/full"
 	case "barename":
-		dstName = pick(r, []string{"1.bin", "0", "outfile", "+o", "@o.bin", ".o", "9", "7e.obj", "o o.bin"})
+		dstName = pick(r, []string{"1.bin", "0", "outfile", "+o", "@o.bin", ".o", "9", "7e.obj", "o o.bin", "out.", "out ", "~out", "OUT.BIN", "a.b.c", "o.BIN", "x.nas", "o.bin.tmp", "o~", `out\img.bin`, `..\o.bin`, "c:o.bin", "$HOME.bin", "o;p.bin", "%d.bin", "{a,b}.bin", "o?.bin", "[o].bin"})
 		dstAbs = filepath.Join(W, dstName)
 		dstArg = dstName
 	case "relative":
